@@ -277,3 +277,147 @@ def sources_untouched(prop, tier, seed):
     r = _run(cases, 'star/EXCEPT/UPDATE/UNNEST/JOIN queries on ragged list tables: input and join lists deep-equal before/after (also after failing queries) and no output record is an input row object', tier, seed, 5000)
     r['job'] = 'sources_untouched_lists'
     return r
+
+
+# ------------------------------------------------------------------ C03
+def _ref_agg(name, vals):
+    import math
+    if name == 'COUNT':
+        return len(vals)
+    if name == 'ARRAY_AGG':
+        return list(vals)
+    if name == 'ANY_VALUE':
+        return vals[0]
+    nums = []
+    for v in vals:
+        if isinstance(v, str):
+            try:
+                nums.append(int(v))
+            except ValueError:
+                nums.append(float(v))
+        else:
+            nums.append(v)
+    if name == 'MIN':
+        return min(nums)
+    if name == 'MAX':
+        return max(nums)
+    if name == 'SUM':
+        return sum(nums)
+    if name == 'AVG':
+        return sum(nums) / float(len(nums))
+    if name == 'VARIANCE':
+        m = sum(nums) / float(len(nums))
+        return sum((x - m) ** 2 for x in nums) / float(len(nums))
+    if name == 'MEDIAN':
+        s = sorted(nums)
+        n = len(s)
+        return s[n // 2] if n % 2 else (s[n // 2 - 1] + s[n // 2]) / 2.0
+    raise ValueError(name)
+
+
+def _close(a, b):
+    if isinstance(a, (int, float)) and isinstance(b, (int, float)) and not isinstance(a, bool):
+        return abs(a - b) <= 1e-9 * max(1.0, abs(a), abs(b))
+    return a == b
+
+
+@job('C03')
+def aggregates_job(prop, tier, seed):
+    import itertools
+    rbql, eng = load_rbql()
+    fails = []
+    n = 0
+    nameset = ['COUNT', 'MIN', 'MAX', 'SUM', 'AVG', 'VARIANCE', 'MEDIAN', 'ARRAY_AGG', 'ANY_VALUE']
+    valsets = [['1', '2', '3'], ['0', '5'], ['-3', '0', '-1'], ['2', '2.5'], ['10', '9', '100'], ['7'], ['1.5', '-2', '4', '4'], ['0', '0']]
+    groupings = [None, 'a1', 'a1, a3']
+    tables = []
+    for vs in valsets:
+        for keys in (['x'] * len(vs), ['y', 'x', 'y', 'x'][:len(vs)], ['k10', 'k9', 'k100'][:len(vs)] + ['k9'] * max(0, len(vs) - 3)):
+            tables.append([[k, v, 'c'] for k, v in zip(keys, vs)])
+    tables += [[], [['x', 5, 'c'], ['x', -2, 'c'], ['y', 0, 'c']], [['new', '1', 'c'], ['new york', '2', 'c'], ['new', '3', 'd']], [[10, '1', 'c'], [9, '2', 'c'], [100, '3', 'c']]]
+    spellings = {'COUNT': ['COUNT', 'count', 'Count'], 'MIN': ['MIN', 'min', 'Min'], 'MAX': ['MAX', 'max', 'Max'], 'SUM': ['SUM', 'sum', 'Sum'], 'AVG': ['AVG', 'avg'],
+                 'VARIANCE': ['VARIANCE', 'variance'], 'MEDIAN': ['MEDIAN', 'median'], 'ARRAY_AGG': ['ARRAY_AGG', 'array_agg'], 'ANY_VALUE': ['ANY_VALUE', 'any_value']}
+    rnd = random.Random(seed)
+    for T in tables:
+        for grouping in groupings:
+            for names in ([n1] for n1 in nameset):
+                name = names[0]
+                for sp in spellings[name]:
+                    for where in (None, "a3 == 'c'"):
+                        arg = 'a2' if name != 'COUNT' else rnd.choice(['*', '1', 'a2'])
+                        items = ([grouping.split(', ')[0]] if grouping else []) + ['%s(%s)' % (sp, arg)]
+                        q = 'select ' + ', '.join(items)
+                        if where:
+                            q += ' where ' + where
+                        if grouping:
+                            q += ' group by ' + grouping
+                        rows = [r for r in T if (where is None or r[2] == 'c')]
+                        groups = {}
+                        for r in rows:
+                            k = tuple(r[0:1]) if grouping == 'a1' else ((r[0], r[2]) if grouping else None)
+                            groups.setdefault(k, []).append(r)
+                        try:
+                            exp = []
+                            for k in sorted(groups):
+                                g = groups[k]
+                                val = _ref_agg(name, [r[1] for r in g])
+                                exp.append(([g[0][0]] if grouping else []) + [val])
+                        except TypeError:
+                            continue
+                        n += 1
+                        res = run_real(q, T)
+                        ok = res[0] == 'ok' and len(res[1]) == len(exp) and all(len(a) == len(b) and all(_close(x, y) for x, y in zip(a, b)) for a, b in zip(res[1], exp))
+                        if not ok:
+                            fails.append({'replay': 'agg', 'key': _key(q, T, None), 'query': q, 'A': T, 'expected': exp, 'observed': res[1] if res[0] == 'ok' else '%s: %s' % (res[1], res[2])})
+                            if len(fails) >= MAX_FAIL:
+                                break
+                    if len(fails) >= MAX_FAIL:
+                        break
+                if len(fails) >= MAX_FAIL:
+                    break
+            if len(fails) >= MAX_FAIL:
+                break
+        if len(fails) >= MAX_FAIL:
+            break
+    # non-constant plain column must fail; builtin meaning of lower-case min/max/sum with several args or an iterable
+    extra = [
+        ('select a1, a2, COUNT(*) group by a1', [['x', '0', 'c'], ['x', '1', 'c']], 'error'),
+        ('select a1, a2, COUNT(*) group by a1', [['x', 0, 'c'], ['x', 1, 'c']], 'error'),
+        ('select a1, a3, COUNT(*) group by a1', [['x', '0', 'c'], ['x', '1', 'c']], [['x', 'c', 2]]),
+        ('select max(int(a2), 5), min([7, int(a2)]), sum([int(a2), 1])', [['x', '3', 'c'], ['y', '9', 'c']], [[5, 3, 4], [9, 7, 10]]),
+        ('select MAX(a2)', [['x', '-3', 'c'], ['x', '-7', 'c']], [[-3]]),
+        ('select MIN(a2)', [['x', '0', 'c'], ['x', '5', 'c']], [[0]]),
+        ('select MAX(a2), MIN(a2)', [['x', '-3', 'c'], ['x', '0', 'c'], ['x', '-1', 'c']], [[0, -3]]),
+        ('select SUM(a2)', [['x', 'abc', 'c']], 'error'),
+        ('select a1, SUM(a2) group by a1', [['solo', '4', 'c'], ['p', '1', 'c'], ['p', '2', 'c']], [['p', 3], ['solo', 4]]),
+        ('select COUNT(*) where a1 == "only"', [['only', '1', 'c'], ['z', '2', 'c']], [[1]]),
+        ('select top 1 a1, COUNT(*) group by a1', [['b', '1', 'c'], ['a', '1', 'c']], [['a', 1]]),
+        ('select MEDIAN(a2)', [['x', '1', 'c'], ['x', 'bad', 'c']], 'error-names-record-2'),
+    ]
+    for q, T, exp in extra:
+        n += 1
+        res = run_real(q, T)
+        if exp == 'error':
+            ok = res[0] == 'error' and res[1] == 'RbqlRuntimeError'
+        elif exp == 'error-names-record-2':
+            ok = res[0] == 'error' and res[1] == 'RbqlRuntimeError' and 'record 2' in res[2]
+        else:
+            ok = res[0] == 'ok' and res[1] == exp
+        if not ok:
+            fails.append({'replay': 'agg', 'key': _key(q, T, None), 'query': q, 'A': T, 'expected': exp, 'observed': res[1] if res[0] == 'ok' else '%s: %s' % (res[1], res[2])})
+    return {'job': 'aggregates', 'evaluations': n, 'distinct_nontrivial': n, 'exhaustive': True,
+            'rule': '9 aggregates x spellings (upper/lower/capitalised) x {no GROUP BY, 1 key, 2 keys} x WHERE on/off over 28 small tables (numeric strings, ints, negative, zero, float fallback, even/odd counts, keys whose string order differs from value order) vs the mathematical definitions; constant-column rule; builtin min/max/sum dispatch',
+            'failures': fails, 'samples': ['select a1, MEDIAN(a2) group by a1']}
+
+
+def replay_agg(case):
+    res = run_real(case['query'], case['A'])
+    obs = res[1] if res[0] == 'ok' else '%s: %s' % (res[1], res[2])
+    exp = case['expected']
+    if isinstance(exp, list):
+        ok = res[0] == 'ok' and len(res[1]) == len(exp) and all(len(a) == len(b) and all(_close(x, y) for x, y in zip(a, b)) for a, b in zip(res[1], exp))
+    elif exp == 'error':
+        ok = res[0] == 'error'
+    else:
+        ok = res[0] == 'error' and 'record 2' in res[2]
+    return {'fails': not ok, 'query': case['query'], 'A': case['A'], 'expected': exp, 'observed': obs}
